@@ -134,7 +134,10 @@ def one_history(c, rnd, hid, max_steps, force_mode=None, force_kinds=()):
                 for _ in range(rnd.randint(1, 2)):
                     r = rnd.random()
                     if r < 0.5 and names_before:
-                        pats.append(rnd.choice(names_before))
+                        nm = rnd.choice(names_before)
+                        # a pattern is a glob: a literal backslash is written `\\` (mostly; left bare now and then, where
+                        # `d\c` is the pattern for the name dc)
+                        pats.append(nm.replace("\\", "\\\\") if rnd.random() < 0.8 else nm)
                     elif r < 0.65:
                         pats.append(rnd.choice(["t/d/*", "t/e/*", "t/d/sub/*"]))
                     elif r < 0.8:
